@@ -603,11 +603,33 @@ theorem applyCtx_TR_new {w2 : World} {i : Nat} {x : Ctx} (h : TR w2) (hfree : w2
     | some e => exact hno e hf
   · exact h1
 
+theorem addOrphan_TR {w : World} (h : TR w) : TR (addOrphan w).1 := by
+  unfold addOrphan
+  refine ⟨h.t0, h.t3, h.t4, ?_, ?_, ?_, h.t6, h.t8, h.t9, h.t11⟩
+  · intro j cj hj hp ho
+    simp only [World.setConn] at hj
+    by_cases hjn : j = w.n
+    · subst hjn; simp at hj; subst hj; simp [newConn] at hp
+    · simp [hjn] at hj; exact h.t5a j cj hj hp ho
+  · intro j cj k hj hp ho
+    simp only [World.setConn] at hj
+    by_cases hjn : j = w.n
+    · subst hjn; simp at hj; subst hj; simp [newConn] at hp
+    · simp [hjn] at hj; exact h.t5b j cj k hj hp ho
+  · intro j cj k hj ho
+    simp only [World.setConn] at hj
+    by_cases hjn : j = w.n
+    · subst hjn; simp at hj; subst hj; simp [newConn] at ho
+    · simp [hjn] at hj; exact h.t5d j cj k hj ho
+
 theorem evInbound_TR {w : World} (hI : WInv w) (hP : PortInv w) (h : TR w) {p : World × Option Err}
     (hp : evInbound w = some p) : TR p.1 := by
   unfold evInbound at hp
   split at hp
   · rename_i hopen
+    split at hp
+    rotate_left
+    · cases hp; exact addOrphan_TR h
     cases hp
     have hph : phC w.cont 0 = some .listening := hP.pl hopen
     unfold addConn
@@ -1038,9 +1060,11 @@ theorem TR_step {w : World} (hI : WInv w) (hP : PortInv w) (hK : K w) (h : TR w)
     | some p => exact evInbound_TR hI hP h hE
   | connect =>
     simp only [step]
-    cases hE : evConnect w with
-    | none => exact h
-    | some w' => exact evConnect_TR h hE
+    split
+    · cases hE : evConnect w with
+      | none => exact h
+      | some w' => exact evConnect_TR h hE
+    · exact h
   | connected k =>
     simp only [step]
     cases hE : evConnected w k with
@@ -1054,6 +1078,7 @@ theorem TR_step {w : World} (hI : WInv w) (hP : PortInv w) (hK : K w) (h : TR w)
   | data i d => exact evData_TR hI h i d
   | lost i => exact evLost_TR h i
   | advance dt => exact evAdvance_TR w dt h hK
+  | setKey => exact TR_shrink h (ConnShrink.of_eq rfl rfl rfl rfl rfl rfl)
 
 theorem TR_init (cfg : Cfg) (l : Bool) (d : Nat) (r : List Nat) : TR (initWorld cfg l d r) := by
   refine ⟨?_, by intro h; simp [initWorld] at h, Or.inl rfl, by intro i c h; simp [initWorld] at h,
@@ -1163,7 +1188,15 @@ theorem W8_evInbound {w : World} (hI : WInv w) (h : W8 w) {p : World × Option E
     (hE : evInbound w = some p) : W8 p.1 := by
   unfold evInbound at hE
   split at hE
-  · cases hE; exact W8_addConn hI h _ _
+  · split at hE
+    · cases hE; exact W8_addConn hI h _ _
+    · cases hE
+      unfold addOrphan
+      intro j c hc
+      simp only [World.setConn] at hc
+      by_cases hj : j = w.n
+      · subst hj; simp at hc; subst hc; intro e _; left; simp
+      · simp [hj] at hc; exact h j c hc
   · cases hE
 
 theorem W8_evConnected {w : World} (hI : WInv w) (h : W8 w) {k : Nat} {p : World × Option Err}
@@ -1184,9 +1217,11 @@ theorem W8_step {w : World} (hI : WInv w) (h : W8 w) (e : Event) : W8 (step w e)
     | some p => exact W8_evInbound hI h hE
   | connect =>
     simp only [step]
-    cases hE : evConnect w with
-    | none => exact h
-    | some w' => exact W8_quiet h (evConnect_quiet hE)
+    split
+    · cases hE : evConnect w with
+      | none => exact h
+      | some w' => exact W8_quiet h (evConnect_quiet hE)
+    · exact h
   | connected k =>
     simp only [step]
     cases hE : evConnected w k with
@@ -1200,6 +1235,7 @@ theorem W8_step {w : World} (hI : WInv w) (h : W8 w) (e : Event) : W8 (step w e)
   | data i d => exact W8_evData hI h i d
   | lost i => exact W8_quiet h (evLost_quiet w i)
   | advance dt => exact W8_quiet h (evAdvance_quiet w dt)
+  | setKey => exact W8_quiet h (Quiet.of_eq rfl rfl rfl rfl)
 
 theorem W8_run {w : World} (hI : WInv w) (h : W8 w) (evs : List Event) : W8 (run w evs) := by
   induction evs generalizing w with
